@@ -127,6 +127,31 @@ Fixpoint exec_order (s : sys) : list Z :=
       flat_map (fun k => lookup k sub) (auto_order auto (map fst sub) edges sccs)
   end.
 
+(* the components below a system (declared order) *)
+Fixpoint leaves (s : sys) : list Z :=
+  match s with
+  | SComp i => [i]
+  | SGroup _ _ ch _ _ =>
+      (fix go (l : list sys) : list Z := match l with [] => [] | c :: r => leaves c ++ go r end) ch
+  end.
+
+(* boolean form of the premise of the hierarchical theorem (ProofsTree.good): in every group the
+   subsystem names are distinct, the computed order is a permutation of them, and every component-level
+   connection of E between two different subsystems has its source's subsystem first *)
+Fixpoint good_b (E : list edge) (t : sys) : bool :=
+  match t with
+  | SComp _ => true
+  | SGroup _ a ch e s =>
+      let ids := map sid ch in
+      let ord := auto_order a ids e s in
+      nodupb ids && nodupb ord && subset_b ord ids && subset_b ids ord
+      && forallb (fun ci => forallb (fun cj =>
+           (sid ci =? sid cj)
+           || forallb (fun ed => negb (memz (fst ed) (leaves ci) && memz (snd ed) (leaves cj))
+                                 || Nat.ltb (pos (sid ci) ord) (pos (sid cj) ord)) E) ch) ch
+      && (fix go (l : list sys) : bool := match l with [] => true | c :: r => good_b E c && go r end) ch
+  end.
+
 (* per group, in pre-order: (checker verdict, edges, out-of-order pairs, resulting order) *)
 Fixpoint group_reports (s : sys) : list val :=
   match s with
@@ -179,10 +204,14 @@ Definition edges_cover_b (cs : list comp) (edges : list edge) : bool :=
      existsb (fun e => (fst e =? snd t) && (snd e =? c_id c)) edges) (c_terms c)) cs.
 
 (* what the harness compares: reports per group, execution order, outputs and residuals after the pass *)
+Definition comp_edges (cs : list comp) : list edge :=
+  flat_map (fun c => map (fun t => (snd t, c_id c)) (c_terms c)) cs.
+
 Definition run_case (s : sys) (cs : list comp) : val :=
   let order := exec_order s in
   let e := run_pass (comp_fun cs) order (init_env cs) in
   VL [VL (group_reports s);
       vzs (filter (fun i => negb (i =? 0)) order);
       vzs (map (fun c => e (c_id c)) cs);
-      vzs (map (fun c => residual cs e (c_id c)) cs)].
+      vzs (map (fun c => residual cs e (c_id c)) cs);
+      VB (good_b (comp_edges cs) s)].
